@@ -58,6 +58,9 @@ func runC02(rc *RunCtx) {
 	m := NewMW(rc, "A")
 	m.Locks = true
 	m.MPP = true
+	if rc.Spec.Profile == "random" {
+		rc.S.Policy = T.Choose("cfg.policy", 3)
+	}
 	m.Strict = ln.PayOutcomeMix == 0
 	m.Fees = map[string][]uint64{"A": c02Fees}
 	rc.Quietly(func() {
